@@ -473,6 +473,11 @@ func (e *FnEnc) evalLoopInv(c *Clause, env *specEnv, ordinal int) (res string) {
 			panic(r)
 		}
 	}()
+	for _, li := range e.loops {
+		if li.ordinal == ordinal {
+			env.visRange = e.loopRange(li)
+		}
+	}
 	return e.evalBool(c.E, env, c)
 }
 
@@ -797,6 +802,9 @@ func (e *FnEnc) encodeInstr(in ssa.Instruction) {
 		for i := len(e.deferred) - 1; i >= 0; i-- {
 			d := e.deferred[i]
 			if !d.Block().Dominates(e.curBlock) {
+				if !blockReaches(d.Block(), e.curBlock) {
+					continue // this return is not reachable from the defer statement: the call was never deferred here
+				}
 				unsup("conditional defer")
 			}
 			e.encCall(d.Common(), nil, d.Pos())
@@ -807,7 +815,7 @@ func (e *FnEnc) encodeInstr(in ssa.Instruction) {
 	case *ssa.Go:
 		e.note(e.key + ": `go` statement: spawned goroutine body not verified, spawn is a no-op")
 	case *ssa.Range:
-		e.vals[x] = Val{T: x.X.Type(), L: e.val(x.X).L}
+		e.encRangeInit(x)
 	case *ssa.Next:
 		e.encNext(x)
 	case *ssa.MakeClosure:
@@ -1443,6 +1451,20 @@ func (e *FnEnc) encNext(x *ssa.Next) {
 	k := e.mapKey(mt, kv)
 	v, has := e.mapGet(m.L[0], mt, k)
 	e.assume(simp(ok, sand(has, snot(seq(m.L[0], "0")))))
+	// visited set of this iterator
+	{
+		srt := e.mapKeySet(mt)
+		vname := rangeVisName(rng)
+		vis := e.heapArr(vname, srt)
+		e.assume(simp(ok, snot("(select "+vis+" "+k+")")))
+		dn, ds := e.mapDom(mt)
+		li := e.loopOfNext(e.curBlock)
+		if e.pass == 2 && li != nil && !li.modAll && !li.mods[dn] {
+			dom := e.heapArr(dn, ds)
+			e.assume(simp(snot(ok), fmt.Sprintf("(forall ((k!v %s)) (! (=> (and (not (= %s 0)) (select (select %s %s) k!v)) (select %s k!v)) :pattern ((select (select %s %s) k!v))))", e.mapKeySort(mt), m.L[0], dom, m.L[0], vis, dom, m.L[0])))
+		}
+		e.setHeap(vname, srt, site(ok, "(store "+vis+" "+k+" true)", vis))
+	}
 	l := []string{ok}
 	// key/value components may be typed invalid (unused): use tuple types
 	if e.sorter.numLeaves(tp.At(1).Type()) == len(kv.L) {
@@ -1457,7 +1479,7 @@ func (e *FnEnc) encNext(x *ssa.Next) {
 	}
 	e.setVal(x, Val{L: l})
 	e.assume(e.typeFacts(Val{T: mt.Elem(), L: v.L}))
-	e.note("range over map: each iteration sees an arbitrary present key (no visited-set tracking)")
+	e.note("range over map: keys are produced in an arbitrary order, each present key at most once; when the loop ends every present key has been produced (provided the loop does not add or remove keys)")
 }
 
 // ---------- environments for contract expressions ----------
@@ -1556,7 +1578,7 @@ func (e *FnEnc) frameObligations() {
 	}
 	sort.Strings(names)
 	for _, k := range names {
-		if k == "$alloc" {
+		if k == "$alloc" || strings.HasPrefix(k, "R/") {
 			continue
 		}
 		cur := e.exitState.heap[k]
@@ -1591,4 +1613,23 @@ func (e *FnEnc) frameObligations() {
 	if e.exitState.epoch != 0 {
 		e.oblige("frame", "opaque call havocs the heap", "false", token.NoPos)
 	}
+}
+
+// blockReaches: is `to` reachable from `from` in the CFG?
+func blockReaches(from, to *ssa.BasicBlock) bool {
+	seen := map[*ssa.BasicBlock]bool{}
+	stack := []*ssa.BasicBlock{from}
+	for len(stack) > 0 {
+		b := stack[len(stack)-1]
+		stack = stack[:len(stack)-1]
+		if b == to {
+			return true
+		}
+		if seen[b] {
+			continue
+		}
+		seen[b] = true
+		stack = append(stack, b.Succs...)
+	}
+	return false
 }
